@@ -145,7 +145,7 @@ impl Prop for C18 {
         "C18"
     }
     fn rule(&self) -> String {
-        format!("case = (type: Knot, Poly0..8, Log<PolyK>, IntOfLog<PolyK>, IntOfLogPoly4, bare / Segment<_> / Piecewise<_> with 0..=16 segments, and (1 case in 200, plus a deterministic boundary scope) MANY segments: 2^k-1, 2^k, 2^k+1 for k = 6..16 and random counts up to 70 000; format uniform over the {} formats of this build ({:?}); numbers: hard table (subnormals, -0.0, ±MAX, MIN_POSITIVE and its predecessor, 17-digit decimals, 2^53+1, f16/f32 boundary values that serde_cbor's float shrinking must not confuse), full-range random bit patterns, moderate values, integers; ±inf only for the binary formats (JSON has no inf)). Oracle: decode(encode(v)) == v AND the flattened numbers (direct field access) are bit-identical. This build: borsh feature {}. Non-trivial: the value contains a number that is not integer-valued and (Piecewise) has >= 2 segments.", NFMT, &FMT_NAMES[..NFMT as usize], if NFMT == 3 { "ON (serde formats are exercised again in this configuration)" } else { "OFF" })
+        format!("case = (type: Knot, Poly0..8, Log<PolyK>, IntOfLog<PolyK>, IntOfLogPoly4, bare / Segment<_> / Piecewise<_> with 0..=16 segments, and (1 case in 200, plus a deterministic boundary scope) MANY segments: 2^k-1, 2^k, 2^k+1 for k = 6..16 and random counts up to 70 000; 1 case in 50 plants an exact relation (quartic form with u = 24·c4 or a float neighbour; ends in arithmetic progression built by accumulation or as start + i·h); format uniform over the {} formats of this build ({:?}); numbers: hard table (subnormals, -0.0, ±MAX, MIN_POSITIVE and its predecessor, 17-digit decimals, 2^53+1, f16/f32 boundary values that serde_cbor's float shrinking must not confuse), full-range random bit patterns, moderate values, integers; ±inf only for the binary formats (JSON has no inf)). Oracle: decode(encode(v)) == v AND the flattened numbers (direct field access) are bit-identical. This build: borsh feature {}. Non-trivial: the value contains a number that is not integer-valued and (Piecewise) has >= 2 segments.", NFMT, &FMT_NAMES[..NFMT as usize], if NFMT == 3 { "ON (serde formats are exercised again in this configuration)" } else { "OFF" })
     }
     fn assumptions(&self) -> Vec<String> {
         vec!["three wire formats stand for 'serde': serde_json (float_roundtrip), serde_cbor, and borsh (feature build); a format-specific attribute for another format would not be seen".into()]
@@ -174,7 +174,34 @@ impl Prop for C18 {
             let nums: Vec<B> = (0..unit * npieces).map(|i| B(pool[(i * 7 + i / 16) % pool.len()])).collect();
             Case { fam, deg, level: 2, fmt, nums }
         });
-        prop_oneof![199 => small, 1 => large].boxed()
+        // exact relations inside one value: a quartic form whose u is 24·c4 or one of its float neighbours (what
+        // Log<Poly4>::indefinite produces for a cubic integrand), and piecewise functions whose ends form an
+        // arithmetic progression, built by accumulation (x += h) or as start + i·h, also through zero
+        let related = (0u8..NFMT, 0u8..4, gen::moderate(8), gen::from_table(&[0.1, 0.07, 0.3, 1.0, 0.25, 1e-3, 7.0]), 3usize..40, -20i32..=20, vec(gen::moderate(6), 8)).prop_map(|(fmt, mode, c4, h, n, start, pool)| {
+            match mode {
+                0 | 1 => {
+                    let u = 24.0 * c4;
+                    let u = [u, ppv_exact::next_up(u), ppv_exact::next_down(u), u][(pool[0].to_bits() % 4) as usize];
+                    let nums = vec![pool[1], pool[2], pool[3], pool[4], c4, u];
+                    let level = mode; // bare or inside a Segment
+                    let mut v: Vec<f64> = if level == 1 { vec![pool[5]] } else { vec![] };
+                    v.extend(nums);
+                    Case { fam: 3, deg: 0, level, fmt, nums: v.into_iter().map(B).collect() }
+                }
+                _ => {
+                    let mut ends = Vec::with_capacity(n);
+                    let x0 = start as f64 * h;
+                    let mut x = x0;
+                    for i in 0..n {
+                        ends.push(if mode == 2 { x } else { x0 + i as f64 * h });
+                        x += h;
+                    }
+                    let nums: Vec<B> = ends.iter().enumerate().flat_map(|(i, &e)| vec![B(e), B(pool[i % pool.len()])]).collect();
+                    Case { fam: 0, deg: 0, level: 2, fmt, nums }
+                }
+            }
+        });
+        prop_oneof![195 => small, 1 => large, 4 => related].boxed()
     }
     fn check(&self, case: &Case, ctx: &mut Ctx) -> Outcome {
         let (fam, deg) = (case.fam % 5, case.deg % 9);
